@@ -4,6 +4,7 @@ import SkopsModel.Markup.Parser
 import SkopsModel.Io.GetTree
 import SkopsModel.Io.Trace
 import SkopsModel.Io.Visualize
+import SkopsModel.Io.Value
 import SkopsModel.Generated.Specs
 /-!
 Line-protocol driver: one JSON object per input line, one JSON object per output line.
@@ -314,6 +315,152 @@ def ioLoad (j : Json) : Json :=
         else Json.mkObj [("verdict", "untrusted"), ("names", strArr l)]
     Json.mkObj [("r", "tree"), ("dump", Json.arr dump), ("untrusted", unt), ("perT", Json.arr perT.toArray)]
 
+
+/-! ## value layer: PyVal JSON ↔ model -/
+section ValueGlue
+open Skops.Io.Value
+
+def decScalar (j : Json) : Scalar :=
+  match asList j with
+  | [Json.str "none"] => .none
+  | [Json.str "bool", Json.bool b] => .bool b
+  | [Json.str "int", Json.str d] => .int d
+  | [Json.str "float", Json.str r] => .float r
+  | [Json.str "str", Json.str s] => .str s
+  | _ => .none
+
+def decKey (j : Json) : Key :=
+  match asList j with
+  | [Json.str "str", Json.str s] => .str s
+  | [Json.str "int", Json.str d] => .int d
+  | [Json.str "float", Json.str r] => .float r
+  | [Json.str "bool", Json.bool b] => .bool b
+  | [Json.str "npint", Json.str ty, Json.str d] => .npint ty d
+  | [Json.str "npfloat", Json.str ty, Json.str r] => .npfloat ty r
+  | [Json.str "npbool", Json.bool b] => .npbool b
+  | _ => .str "?"
+
+def encKey : Key → Json
+  | .str s => Json.arr #["str", s]
+  | .int d => Json.arr #["int", d]
+  | .float r => Json.arr #["float", r]
+  | .bool b => Json.arr #["bool", b]
+  | .npint ty d => Json.arr #["npint", ty, d]
+  | .npfloat ty r => Json.arr #["npfloat", ty, r]
+  | .npbool b => Json.arr #["npbool", b]
+
+def decDictCls (j : Json) : DictCls :=
+  match asList j with
+  | [Json.str "dict"] => .dict
+  | [Json.str "ordered"] => .ordered
+  | [Json.str "sub", Json.str c] => .sub c
+  | [Json.str "default", Json.str c, Json.str f] => .default c f
+  | _ => .dict
+
+def encDictCls : DictCls → Json
+  | .dict => Json.arr #["dict"]
+  | .ordered => Json.arr #["ordered"]
+  | .sub c => Json.arr #["sub", c]
+  | .default c f => Json.arr #["default", c, f]
+
+instance : Inhabited PyVal := ⟨.property⟩
+instance : Inhabited PyVals := ⟨.nil⟩
+instance : Inhabited PyEntries := ⟨.nil⟩
+
+mutual
+partial def decPyVal (j : Json) : PyVal :=
+  match asList j with
+  | [Json.str "scalar", s] => .scalar (decScalar s)
+  | [Json.str "list", Json.str c, xs] => .list c (decPyVals xs)
+  | [Json.str "tuple", xs] => .tuple (decPyVals xs)
+  | [Json.str "namedtuple", Json.str c, xs] => .namedtuple c (decPyVals xs)
+  | [Json.str "tuplesub", Json.str c, xs] => .tupleSub c (decPyVals xs)
+  | [Json.str "set", Json.str c, xs] => .set c (decPyVals xs)
+  | [Json.str "frozenset", xs] => .frozenset (decPyVals xs)
+  | [Json.str "dict", c, es] => .dict (decDictCls c) (decPyEntries es)
+  | [Json.str "opaque", Json.str f, Json.str p] => .opaque f p
+  | [Json.str "objarray", shape, cells] => .objarray ((asList shape).map fun x => x.getNat?.toOption.getD 0) (decPyVals cells)
+  | [Json.str "property"] => .property
+  | [Json.str "unsupported", Json.str w] => .unsupported w
+  | _ => .unsupported "?"
+partial def decPyVals (j : Json) : PyVals :=
+  (asList j).foldr (fun x acc => PyVals.cons (decPyVal x) acc) PyVals.nil
+partial def decPyEntries (j : Json) : PyEntries :=
+  (asList j).foldr (fun kv acc =>
+    match asList kv with
+    | [k, v] => PyEntries.cons (decKey k) (decPyVal v) acc
+    | _ => acc) PyEntries.nil
+end
+
+def encScalar : Scalar → Json
+  | .none => Json.arr #["none"]
+  | .bool b => Json.arr #["bool", b]
+  | .int d => Json.arr #["int", d]
+  | .float r => Json.arr #["float", r]
+  | .str s => Json.arr #["str", s]
+
+mutual
+partial def encPyVal : PyVal → Json
+  | .scalar s => Json.arr #["scalar", encScalar s]
+  | .list c xs => Json.arr #["list", c, encPyVals xs]
+  | .tuple xs => Json.arr #["tuple", encPyVals xs]
+  | .namedtuple c xs => Json.arr #["namedtuple", c, encPyVals xs]
+  | .tupleSub c xs => Json.arr #["tuplesub", c, encPyVals xs]
+  | .set c xs => Json.arr #["set", c, encPyVals xs]
+  | .frozenset xs => Json.arr #["frozenset", encPyVals xs]
+  | .dict c es => Json.arr #["dict", encDictCls c, encPyEntries es]
+  | .opaque f p => Json.arr #["opaque", f, p]
+  | .objarray shape cells => Json.arr #["objarray", Json.arr (shape.map natJ).toArray, encPyVals cells]
+  | .property => Json.arr #["property"]
+  | .unsupported w => Json.arr #["unsupported", w]
+partial def encPyVals : PyVals → Json
+  | .nil => Json.arr #[]
+  | .cons x xs => match encPyVals xs with
+    | Json.arr a => Json.arr (#[encPyVal x] ++ a)
+    | _ => Json.arr #[encPyVal x]
+partial def encPyEntries : PyEntries → Json
+  | .nil => Json.arr #[]
+  | .cons k v rest => match encPyEntries rest with
+    | Json.arr a => Json.arr (#[Json.arr #[encKey k, encPyVal v]] ++ a)
+    | _ => Json.arr #[]
+end
+
+def keyTypeName : KeyType → String
+  | .str => "str" | .int => "int" | .float => "float" | .bool => "bool"
+  | .npint ty => "npint:" ++ ty | .npfloat ty => "npfloat:" ++ ty | .npbool => "npbool"
+
+mutual
+partial def schJson : Sch → Json
+  | .json s => Json.arr #["json", encScalar s]
+  | .seq loader cls items => Json.arr #["seq", loader, cls, schsJson items]
+  | .ctor cls args => Json.arr #["ctor", cls, schJson args]
+  | .dict cls types content => Json.arr #["dict", cls, Json.arr (types.map fun t => Json.str (keyTypeName t)).toArray, schEntriesJson content]
+  | .ddict cls f main => Json.arr #["ddict", cls, f, schJson main]
+  | .opaque f _ => Json.arr #["opaque", f]
+  | .objarr shape content => Json.arr #["objarr", Json.arr (shape.map natJ).toArray, schsJson content]
+partial def schsJson : Schs → Json
+  | .nil => Json.arr #[]
+  | .cons x xs => match schsJson xs with
+    | Json.arr a => Json.arr (#[schJson x] ++ a)
+    | _ => Json.arr #[]
+partial def schEntriesJson : SchEntries → Json
+  | .nil => Json.arr #[]
+  | .cons t v rest => match schEntriesJson rest with
+    | Json.arr a => Json.arr (#[Json.arr #[Json.str t, schJson v]] ++ a)
+    | _ => Json.arr #[]
+end
+
+def valEncode (j : Json) : Json :=
+  let v := decPyVal ((j.getObjVal? "value").toOption.getD Json.null)
+  match encode v with
+  | none => Json.mkObj [("r", "refused")]
+  | some s =>
+    match decode s with
+    | none => Json.mkObj [("r", "ok"), ("schema", schJson s), ("loaded", Json.null)]
+    | some w => Json.mkObj [("r", "ok"), ("schema", schJson s), ("loaded", encPyVal w)]
+
+end ValueGlue
+
 def badOp : Json := Json.mkObj [("r", "bad-op")]
 
 def handle (st : DSt) (j : Json) : DSt × Json :=
@@ -325,6 +472,7 @@ def handle (st : DSt) (j : Json) : DSt × Json :=
       let r := step st.card o
       ({ st with card := r.1 }, outJson r.2)
     | none => (st, badOp)
+  else if op = "val.encode" then (st, valEncode j)
   else if op = "io.load" then (st, ioLoad j)
   else if op = "io.visualize" then (st, ioVisualize j)
   else if op = "md.conv" then
